@@ -196,6 +196,55 @@ theorem frame (v : Json) : ∀ (steps other : List PStep) (d d' : Json), Diverge
 #print axioms put_get
 #print axioms frame
 #print axioms walk_spec
+theorem Diverge.symm : ∀ {a b : List PStep}, Diverge a b → Diverge b a
+  | _, _, .name k k' r r' h => .name k' k r' r (by
+      cases hk : (k == k') with
+      | false => rfl
+      | true => have : k = k' := by simpa using hk
+                subst this; simp at h)
+  | _, _, .index i j r r' h => .index j i r' r (fun e => h e.symm)
+  | _, _, .mixed1 k j r r' => .mixed2 j k r' r
+  | _, _, .mixed2 i k' r r' => .mixed1 k' i r' r
+  | _, _, .consN k r r' h => .consN k r' r h.symm
+  | _, _, .consI i r r' h => .consI i r' r h.symm
+
+/-- a sequence of writes `*reference_mut(pathᵢ)? = vᵢ`, each applied to the document left by the previous one -/
+def writeAll : Json → List (List PStep × Json) → Option Json
+  | d, [] => some d
+  | d, (s, v) :: ws => (setAt v d s).bind fun d1 => writeAll d1 ws
+
+/-- nothing outside the written locations changes, however many writes there are -/
+theorem history_frame : ∀ (ws : List (List PStep × Json)) (d d' : Json) (other : List PStep),
+    (∀ sv ∈ ws, Diverge sv.1 other) → writeAll d ws = some d' → getAt d' other = getAt d other
+  | [], d, d', _, _, h => by simp [writeAll] at h; subst h; rfl
+  | (s, v) :: ws, d, d', other, hdiv, h => by
+    simp only [writeAll] at h
+    cases h1 : setAt v d s with
+    | none => simp [h1] at h
+    | some d1 =>
+      simp only [h1, Option.bind_some] at h
+      rw [history_frame ws d1 d' other (fun sv hsv => hdiv sv (List.mem_cons_of_mem _ hsv)) h]
+      exact frame v s other d d1 (hdiv (s, v) (by simp)) h1
+
+/-- history: updates through pairwise diverging paths (e.g. the paths one query returned for different, non-nested nodes)
+each take effect – afterwards every written location holds its new value -/
+theorem history_put_get : ∀ (ws : List (List PStep × Json)) (d d' : Json),
+    ws.Pairwise (fun a b => Diverge a.1 b.1) → writeAll d ws = some d' → ∀ sv ∈ ws, getAt d' sv.1 = some sv.2
+  | [], _, _, _, _, sv, hsv => by simp at hsv
+  | (s, v) :: ws, d, d', hp, h, sv, hsv => by
+    simp only [writeAll] at h
+    rw [List.pairwise_cons] at hp
+    cases h1 : setAt v d s with
+    | none => simp [h1] at h
+    | some d1 =>
+      simp only [h1, Option.bind_some] at h
+      simp only [List.mem_cons] at hsv
+      rcases hsv with rfl | hsv
+      · -- the first write survives all later ones: they diverge from it
+        rw [history_frame ws d1 d' s (fun sv' hsv' => (hp.1 sv' hsv').symm) h]
+        exact (put_get v s d d1 h1).1
+      · exact history_put_get ws d1 d' hp.2 h sv hsv
+
 /-- get law tied to locations and to queries (AST level): the walk that `reference` performs over the AST of the Normalized Path of
 `l` returns the node at `l` – the same node, at the same location, that running that path as a query returns (`C03c_ast`) – and
 `None` when `l` does not exist -/
